@@ -151,12 +151,22 @@ def is_leaf(o):
     return type(o).__name__ in ('Bool', 'AtomicProposition')
 
 
+_RAWMODE = [0]
+
+
 def build_raw(f, L):
     """same tree, but leaf operands are handed to the operators as raw python str / bool (and/or/not also through the
     &, |, ~ operators when the left operand is an object)"""
     t = f[0]
     if t in ('true', 'false', 'ap'):
         return build(f, L)
+    _RAWMODE[0] += 1
+    if _RAWMODE[0] % 3 == 0 and L.__name__.split('.')[-1] != 'PL':
+        # leaves handed over as objects of ANOTHER language module (PL): the operators cast them; a constant false must stay the constant
+        PLm = lang_module('PL')
+        kids = [(PLm.AtomicProposition(g[1]) if g[0] == 'ap' else PLm.Bool(g[0] == 'true')) if g[0] in ('true', 'false', 'ap') else build_raw(g, L)
+                for g in f[1:]]
+        return getattr(L, PYNAME[t])(*kids)
     kids = [(g[1] if g[0] == 'ap' else g[0] == 'true') if g[0] in ('true', 'false', 'ap') else build_raw(g, L) for g in f[1:]]
     if t == 'not' and not isinstance(kids[0], (str, bool)):
         return ~kids[0]
@@ -1003,8 +1013,15 @@ def replay(R, data):
     print('case :', {k: v for k, v in d.items() if k not in ('impl', 'expected', 'model')})
     if kind == 'pair':
         f, g = detuple(d['f']), detuple(d['g'])
-        obs = impl_pair(L, f, L, g, raw=bool(d.get('g_built_from_raw_operands')))
+        raw = bool(d.get('g_built_from_raw_operands'))
         exp = expected_pair(f == g)
+        if raw:
+            exp['raw_built_tree'] = g
+        for phase in range(3 if raw else 1):            # raw builds rotate between three leaf styles: replay all of them
+            _RAWMODE[0] = phase
+            obs = impl_pair(L, f, L, g, raw=raw)
+            if any(obs[k] != exp[k] for k in exp):
+                break
         print('impl :', obs)
         if d.get('model_free'):
             print('model: - (atoms outside the model\'s `good` predicate: judged by tree equality alone)  tree equality:', f == g)
